@@ -311,8 +311,7 @@ def create(
                     if validator is None:
                         continue
 
-                    errors = validator(self, v, instance, _schema) or ()
-                    for error in errors:
+                    for error in validator(self, v, instance, _schema) or ():
                         # set details if not already set by the called fn
                         error._set(
                             validator=k,
